@@ -177,6 +177,16 @@ def ties_project(rng, scale=1):
         for i, m in enumerate(tail):
             nxt = "import %s%s\n" % (pre, tail[i + 1]) if i + 1 < len(tail) else "import os\n"
             files[pre + m + ".py"] = nxt + "\n\ndef t_%s():\n    return 0\n" % m
+    # a file list whose walk order is not byte-wise path order (app/ next to app.py, core/ next to core-legacy/): whoever re-sorts
+    # the list that the concurrent analyses share changes what the others iterate over
+    for sub, mods_ in (("app", ["views", "models"]), ("core", ["engine"]), ("core-legacy", ["old_engine"]), ("utils.old", ["misc"])):
+        for nm in mods_:
+            files["%s/%s.py" % (sub, nm)] = fn_complexity("%s_%s" % (sub.replace("-", "_").replace(".", "_"), nm), 3) + \
+                "\n\nclass %s%s:\n    def __init__(self):\n        self.a = 0\n\n    def get(self):\n        return self.a\n" % (nm.capitalize(), "X") + \
+                fn_two_terminators("tt_%s" % nm, ("return", "raise"))
+    files["app.py"] = fn_complexity("app_entry", 2) + fn_two_terminators("app_tt", ("raise", "return"))
+    files["core.py"] = fn_complexity("core_entry", 2)
+    files["utils.py"] = fn_complexity("utils_entry", 2)
     # several identical clone groups (each body 3 copies), spread over two files
     c0, c1 = "", ""
     for g, tmpl in enumerate(CLONE_BODIES):
